@@ -223,3 +223,45 @@ def run_witness(ctx, prop, finding, focus=None):
     for p, key, what in schedlib.monitors(w["workload"], ev, obs, tr, q):
         if p in focus:
             ctx.monitor_fail(key, f"{what} [witness of {finding['id']}]", {"workload": w["workload"], "events": w["events"]})
+
+
+def restart_part(ctx, prop, n):
+    """the adoption path of `aio_submit` (a job found running through its pid file after a scheduler restart) is only
+    exercised by the restart engine (xv.impl.restart_eng, the real Scheduler on a persistent simulated workspace with
+    crashes): C04 / C07 monitors on the last run of each history"""
+    from . import c11
+    base = ctx.rng.randrange(10**9)
+    with mp.Pool(min(16, mp.cpu_count())) as pool:
+        results = pool.map(c11._engine_one, [base + i for i in range(n)], chunksize=8)
+    for seed, spec, ev, obs, q, fails in results:
+        if not obs:
+            continue
+        last = obs[-1]
+        jobs = spec["jobs"]
+        marker = {d["ident"]: d["done"] for d in last["dirs"]}
+        adopted_seen = any(any(o["adopted"]) for o in obs)
+        ctx.case({"restart_history": {"seed": seed, "workload": spec, "events": ev[:60]}}, adopted_seen)
+        ctx.count("restart_adoption_seen", adopted_seen)
+        case = {"engine": "restart", "workload": spec, "events": ev, "seed": seed}
+        for j, js in enumerate(jobs):
+            if last["states"][j] is None:
+                continue
+            deps = [d[1] for d in js["deps"] if d[0] == "j"]
+            if prop == "C04" and last["launches"][j] > 0:
+                bad = [d for d in deps if not marker[jobs[d]["ident"]]]
+                if bad:
+                    ctx.monitor_fail("launch-before-dependency:after-restart",
+                                     f"last run: job {j} was launched although job(s) {bad} it depends on did not succeed (no success marker) "
+                                     f"[restart engine; workload {json.dumps(spec)}; seed {seed}]", case)
+                    break
+            if prop == "C07":
+                if last["futures"][j] == "DONE" and not marker[js["ident"]]:
+                    ctx.monitor_fail("failure-read-as-success:after-restart",
+                                     f"last run: job {j} is reported DONE but its success marker does not exist (its process failed) "
+                                     f"[restart engine; workload {json.dumps(spec)}; seed {seed}]", case)
+                    break
+                failed_dep = [d for d in deps if last["futures"][d] == "ERROR"]
+                if failed_dep and (last["launches"][j] > 0 or last["futures"][j] == "DONE") and not marker[js["ident"]]:
+                    ctx.monitor_fail("dependent-not-cancelled:after-restart",
+                                     f"last run: job {j} ran although job(s) {failed_dep} it depends on failed [restart engine; seed {seed}]", case)
+                    break
